@@ -17,5 +17,11 @@ CLAIMS = {
   "note": "Trusted: harness/ref (frame parser, receive model, inflater with explicit history), compress/flate as DEFLATE primitive. Not compared (excluded by the property): UTF-8, behaviour after a non-minimal length, output of malformed DEFLATE (incl. data after a BFINAL block), the status code of the Close sent after a violation. A CloseError is only required for a Close frame at a message boundary.",
   "technique": "rapid structured generation + byte-level mutation (and native go fuzzing in thorough) with a differential oracle: independent RFC 6455/7692 reference receiver",
  },
+
+ "C04": {
+  "text": "Fault enumeration over transport cut points: rapid draws multi-message, multi-fragment streams (uncompressed / compressed with either takeover setting and any foreign deflater, with interleaved control frames; binary-only and JSON flavours), and for each stream the check enumerates every cut offset 0..len(stream) x {EOF, io.ErrUnexpectedEOF, reset error}, observing through Reader+Read (small and large buffers), Conn.Read, NetConn.Read and wsjson.Read (rotating per cut, all of them near frame boundaries), on both roles. Oracle from the stream's own message boundaries: every message wholly before the cut is delivered intact, the message in progress ends in a non-nil error (never a clean end), bytes handed out before it (including those returned together with the error) are a true prefix of its payload, later reads yield nothing, NetConn never returns io.EOF for a mid-message cut, wsjson never decodes a prefix. Complete in the cut dimension for each generated stream; streams are sampled.",
+  "note": "Trusted: the harness's knowledge of its own stream layout, the reference deflaters (verified to round-trip against the reference inflater; a compress/flate NewWriterDict stored-block bug is worked around), memconn's termination errors.",
+  "technique": "rapid-generated streams + exhaustive enumeration of cut offsets and termination kinds (fault injection) against the stream's known message boundaries",
+ },
 }
 PENDING = {}
